@@ -124,26 +124,6 @@ theorem finishMode_noHoles (m : Mode) (ps : List Piece) (h : finishMode m = .ok 
 
 /-! ### leaving a pending mode -/
 
-/-- modes in which a `?` stands in code position -/
-def codeMode : Mode → Bool
-  | .norm => true
-  | .dash => true
-  | .qq q _ => q ≠ '?'
-  | _ => false
-
-/-- what a pending mode contributes when the next character does not continue it -/
-def flush : Mode → Except LexErr (List Piece)
-  | .dash => .ok [.ch '-']
-  | .qq q acc => closeQuoted q acc
-  | _ => .ok []
-
-/-- `c` does not continue the pending token of mode `m` -/
-def leaves (m : Mode) (c : Char) : Bool :=
-  match m with
-  | .dash => c ≠ '-'
-  | .qq q _ => c ≠ q
-  | _ => true
-
 theorem flush_noHoles (m : Mode) (f : List Piece) (h : flush m = .ok f) : noHoles f := by
   cases m with
   | dash => injection h with h; subst h; intro p hp; simp at hp; subst hp; exact fun e => by cases e
@@ -178,16 +158,11 @@ theorem scanGo_leave (holes : Bool) (m : Mode) (c : Char) (X : Str) (hm : codeMo
 
 /-! ### scanning the text of a bound value -/
 
-/-- a character that is one piece by itself in code position -/
-def plainCode (c : Char) : Bool := !isQuote c && c ≠ '-' && !isWs c
-
 theorem normStep_plain (holes : Bool) (c : Char) (h : plainCode c = true) (hq : c ≠ '?') :
     normStep holes c = ([.ch c], .norm) := by
   simp only [plainCode, Bool.and_eq_true, Bool.not_eq_true', decide_eq_true_eq] at h
   obtain ⟨⟨h1, h2⟩, h3⟩ := h
   simp [normStep, h1, h2, h3, hq]
-
-def plainRun (w : Str) : Bool := w.all (fun c => plainCode c && c ≠ '?')
 
 theorem scanGo_plain (holes : Bool) (w : Str) (hw : plainRun w = true) (T : Str) :
     scanGo holes .norm (w ++ T) = (scanGo holes .norm T).map (w.map Piece.ch ++ ·) := by
@@ -262,17 +237,6 @@ theorem scanGo_str (holes : Bool) (s T : Str) (hT : ∀ c T', T = c :: T' → c 
     rw [scanGo_leave holes (.qq '\'' (s.reverse ++ [])) c T' (by simp [codeMode]) (by simp [leaves, hc])]
     simp only [flush, closeQuoted, if_true, Except.bind, List.append_nil, List.reverse_reverse]
     cases scanGo holes .norm (c :: T') <;> simp [Except.map]
-
-/-- well-formed bound values: numbers and bare words are non-empty runs of plain characters -/
-def PVal.wf : PVal → Bool
-  | .num _ body => !body.isEmpty && plainRun body
-  | .word w => !w.isEmpty && plainRun w
-  | .negWord w => !w.isEmpty && plainRun w
-  | _ => true
-
-def isStrVal : PVal → Bool
-  | .str _ => true
-  | _ => false
 
 theorem plainRun_kw : plainRun "TRUE".toList = true ∧ plainRun "FALSE".toList = true ∧
     plainRun "NULL".toList = true := by decide
